@@ -674,3 +674,207 @@ func stringIndex(v ssa.Value) (x, idx ssa.Value) {
 	}
 	return nil, nil
 }
+
+// ---------------------------------------------------------------- C04.O17
+
+// c04DisarmByQueueAlone: where the connection-level disarm (which also clears
+// isWAdded) is issued on the queue-empty edge, nothing else conditions it.  A
+// further condition between the queue test and the disarm leaves a path on
+// which the queue is empty, the registration is reduced by someone else (the
+// one-shot re-arm registers by queue state and never touches the flag) and
+// the flag keeps saying "armed".
+func c04DisarmByQueueAlone(c *Ctx) {
+	const ob = "C04.O17"
+	n := 0
+	for _, f := range c.nbioFuncs() {
+		fi := c.P.Info(f)
+		k := 0
+		for _, cs := range c.P.CallsNamed(f, "(*nbio.Conn).resetRead") {
+			var qIf *ssa.If
+			for _, ft := range fi.Facts(cs.In) {
+				if e, ok := c.queueTest(ft); ok && e {
+					qIf = ft.If
+				}
+			}
+			if qIf == nil {
+				continue
+			}
+			n++
+			k++
+			key := c.siteKey(f, "disarm decided by the queue alone", k)
+			bad := ""
+			for _, ft := range fi.Facts(cs.In) {
+				if ft.If == nil || ft.If == qIf || !fi.Dominates(qIf, ft.If) {
+					continue
+				}
+				if e, ok := c.queueTest(ft); ok && e {
+					continue
+				}
+				bad = fmt.Sprintf("between the queue-empty test (%s) and the disarm at %s there is a further condition (%s): on its other edge the queue is empty and isWAdded stays set, so once something else reduces the registration (the one-shot re-arm registers by queue state without touching the flag) every later arm step is skipped as 'already armed' and a backlog is never flushed", c.Pos(qIf), c.Pos(cs.In), c.Pos(ft.If))
+			}
+			c.Cond(bad == "", ob, key, c.Pos(cs.In), "no condition between the queue test and the disarm", bad)
+		}
+	}
+	if n < 2 {
+		c.Unres(ob, "disarm sites on a queue-empty edge", fmt.Sprintf("found %d, expected >= 2 (flush, dial completion)", n))
+	}
+}
+
+// ---------------------------------------------------------------- C06.O7
+
+// c06NoLookAhead: Parse decides on the current byte only.  A read of
+// data[i+k] depends on whether the k following bytes happen to be in this
+// read already, i.e. on where the stream was cut.
+func c06NoLookAhead(c *Ctx) {
+	const ob = "C06.O7"
+	parse := c.Fn(ob, "(*nbhttp.Parser).Parse")
+	if parse == nil {
+		return
+	}
+	key := fnKey(c.P, parse, "no look-ahead")
+	// the loop index: the phi that the state switch's current-byte load uses
+	var idx ssa.Value
+	n := 0
+	bad := ""
+	isByteSlice := func(v ssa.Value) bool {
+		sl, ok := v.Type().Underlying().(*types.Slice)
+		if !ok {
+			return false
+		}
+		b, ok := sl.Elem().Underlying().(*types.Basic)
+		return ok && b.Kind() == types.Uint8
+	}
+	var loads []*ssa.IndexAddr
+	for _, b := range parse.Blocks {
+		for _, in := range b.Instrs {
+			ia, ok := in.(*ssa.IndexAddr)
+			if !ok || !isByteSlice(ia.X) {
+				continue
+			}
+			// element loads only (an address that is loaded)
+			if refs := ia.Referrers(); refs != nil {
+				for _, r := range *refs {
+					if u, ok := r.(*ssa.UnOp); ok && u.Op == token.MUL {
+						loads = append(loads, ia)
+						break
+					}
+				}
+			}
+		}
+	}
+	for _, ia := range loads {
+		if _, ok := ia.Index.(*ssa.Phi); ok && idx == nil {
+			idx = ia.Index
+		}
+	}
+	for _, ia := range loads {
+		n++
+		if idx == nil || ia.Index != idx {
+			bad = fmt.Sprintf("Parse reads a byte at %s with an index other than the loop's current index (%s): a look-ahead sees the next byte only when it arrived in the same read, so the same stream is parsed differently depending on where it was cut", c.Pos(ia), c.P.Desc(ia.Index))
+		}
+	}
+	c.Cond(bad == "" && n > 0, ob, key, c.FnPos(parse), fmt.Sprintf("%d byte load(s), all at the loop index", n), bad)
+}
+
+// ---------------------------------------------------------------- C18.O16
+
+// c18AcceptorAddsItself: Stop waits for the acceptor goroutines so that every
+// accepted connection is in the table before the sweep.  That only works if
+// the acceptor registers the connection itself: an add handed to another
+// goroutine or queue is not covered by the wait.
+func c18AcceptorAddsItself(c *Ctx) {
+	const ob = "C18.O16"
+	loop := c.Fn(ob, "(*nbio.poller).acceptorLoop")
+	if loop == nil {
+		return
+	}
+	key := fnKey(c.P, loop, "the acceptor registers what it accepts")
+	direct := len(c.P.CallsNamed(loop, "(*nbio.poller).addConn"))
+	deferred := ""
+	for _, g := range ir.Closures(loop) {
+		if len(c.P.CallsNamed(g, "(*nbio.poller).addConn")) == 0 {
+			continue
+		}
+		// a closure that is only called in place is as good as inline code
+		inPlace := true
+		for _, b := range loop.Blocks {
+			for _, in := range b.Instrs {
+				for _, op := range in.Operands(nil) {
+					mc, ok := (*op).(*ssa.MakeClosure)
+					if !ok || mc.Fn != g {
+						continue
+					}
+					cs, isCall := in.(*ssa.Call)
+					if !isCall || cs.Call.Value != mc {
+						inPlace = false
+						deferred = c.Pos(in)
+					}
+				}
+			}
+		}
+		if inPlace {
+			direct++
+		}
+	}
+	bad := ""
+	if deferred != "" {
+		bad = "the acceptor hands the registration of an accepted connection to another goroutine or queue at " + deferred + ": Engine.Stop waits for the acceptor goroutines and then sweeps the connection table, so an add that is still pending is missed by the sweep — the connection is registered after Stop (never closed, Stop hangs in the connection wait group, or an OnOpen after Stop)"
+	} else if direct == 0 {
+		bad = "acceptorLoop does not call addConn"
+	}
+	c.Cond(bad == "", ob, key, c.FnPos(loop), fmt.Sprintf("%d direct call(s) of addConn in the acceptor's own goroutine", direct), bad)
+}
+
+// ---------------------------------------------------------------- C14.O13
+
+// c14PayloadReleasedByJob: a message callback that is handed to the
+// connection's executor runs later; its payload belongs to that job.  The
+// function that queues the job may release the payload only where the job will
+// not run (the executor refused it) or where the callback already ran (the
+// inline, blocking-mode edge).
+func c14PayloadReleasedByJob(c *Ctx) {
+	const ob = "C14.O13"
+	n := 0
+	for _, f := range c.pkgFuncs("websocket") {
+		if f.Parent() != nil {
+			continue
+		}
+		var execs []ir.CallSite
+		for _, cs := range c.P.Calls(f, nil) {
+			if cs.Kind == "call" && c.P.CalleeName(cs.Common) == "dyn:websocket.Conn.Execute" && len(cs.Common.Args) == 1 {
+				if _, ok := cs.Common.Args[0].(*ssa.MakeClosure); ok {
+					execs = append(execs, cs)
+				}
+			}
+		}
+		if len(execs) == 0 {
+			continue
+		}
+		fi := c.P.Info(f)
+		k := 0
+		for _, cs := range c.P.Calls(f, nil) {
+			if c.P.CalleeName(cs.Common) != "invoke:mempool.Allocator.Free" {
+				continue
+			}
+			k++
+			n++
+			key := c.siteKey(f, "payload released only where the queued job does not own it", k)
+			ok := fi.HasFact(cs.In, func(ft ir.Fact) bool {
+				if fld, set, isB := c.P.BoolFieldTest(ft.Cond, ft.Truth); isB && fld == "websocket.Conn.isBlockingMod" && set {
+					return true
+				}
+				for _, e := range execs {
+					if ir.Resolve(ft.Cond) == e.Value() && !ft.Truth {
+						return true
+					}
+				}
+				return false
+			})
+			c.Cond(ok, ob, key, c.Pos(cs.In), "behind isBlockingMod (the callback ran inline) or behind a refused Execute",
+				"the payload is released at "+c.Pos(cs.In)+" by the function that queues the callback, on a path where the executor accepted the job: the job runs later and reads a buffer that is back in the pool and, by then, holds a later message's bytes (callbacks see other messages' payloads; order and content no longer match the wire)")
+		}
+	}
+	if n < 2 {
+		c.Unres(ob, "payload releases next to an Execute hand-over", fmt.Sprintf("found %d, expected >= 2 (handleDataFrame, handleMessage)", n))
+	}
+}
